@@ -605,7 +605,31 @@ def run_case(case, tape, ctx):
             tid, stime, cn, cur_secs = ctxt
             if cn == 'app' and cname != 'app':
                 # AppClock keeps no logical time (documented); which base a
-                # task running on it hands to another clock is unspecified
+                # task running on it hands to another clock is unspecified,
+                # but it lies between the task's own scheduled time and the
+                # physical present: later than that, the new task would wait
+                # for an unrelated deadline
+                if cname.startswith('t'):
+                    if call['changes'] != m.map_changes.get(cname, 0) \
+                            or cname in m.neg_tempo:
+                        return
+                    c = clocks[cname]
+                    if c._tempo <= 0:
+                        return
+                    conv = lambda x: (x - c._base_seconds) * c._tempo \
+                        + c._base_beats
+                    sc = max(1.0, abs(c._tempo))
+                else:
+                    conv = lambda x: x
+                    sc = 1.0
+                lo, hi = conv(stime) + delta, conv(call['exit']) + delta
+                if not (lo - tol * sc <= stored <= hi + tol * sc):
+                    viol.add(
+                        'C08-5', f'{cname[0]}-sched-base-from-app-task',
+                        f'sched({delta}) on {cname} from an AppClock task '
+                        f'(scheduled at {stime}, call exit {call["exit"]}) '
+                        f'stored {stored}, expected in [{lo}, {hi}]')
+                m.bump('sched-base-checked-app-task')
                 return
             if cname == 'app':
                 pass            # physical window below
